@@ -46,13 +46,13 @@ CHECKS = {
         "assumptions": ["reference model in /verif/harness/ref.go (anchored by the repository's TestTreeHash vectors)", "rapid v1.3.0", "Go toolchain"],
         "quick": [{"test": "TestC01", "checks": 700, "shards": 6},
                   {"test": "TestC01", "checks": 60, "shards": 1, "env": {"VERIF_LEVEL": "1"}}],
-        "thorough": [{"test": "TestC01", "checks": 40000, "shards": 15},
+        "thorough": [{"test": "TestC01", "checks": 12000, "shards": 15},
                      {"test": "TestC01", "checks": 3000, "shards": 1, "env": {"VERIF_LEVEL": "1"}}],
     },
     "C02": _world("TestC02", _R["C02"], 700, 40000),
-    "C03": _world("TestC03", _R["C03"], 250, 12000, extra_assume=["ics23/go v0.11.0 verifier (IavlSpec)"]),
-    "C04": _world("TestC04", _R["C04"], 300, 15000, extra_assume=["ics23/go v0.11.0 verifier (IavlSpec)"]),
-    "C07": _world("TestC07", _R["C07"], 600, 40000),
+    "C03": _world("TestC03", _R["C03"], 250, 5000, extra_assume=["ics23/go v0.11.0 verifier (IavlSpec)"]),
+    "C04": _world("TestC04", _R["C04"], 300, 4000, extra_assume=["ics23/go v0.11.0 verifier (IavlSpec)"]),
+    "C07": _world("TestC07", _R["C07"], 600, 16000),
     "C05": {
         "level": "fault_enumeration",
         "rule": "TestC05: a generated prefix history (8-40 steps + a burst of 0-8 large writes) on the journaling storage seam with flush threshold in {150,300,1000,100000}, then ONE operation O in {SaveVersion, DeleteVersionsTo(n), LoadVersionForOverwriting(n), (re)open with the fast index enabled = first-time / forced index build}; the seam yields the base image B and the journal J of O (one entry per physical batch write) and EVERY cut k in [0,|J|] is enumerated, each recovered twice (fast index on / off): reopening B+J[:k] must succeed, AvailableVersions must be the state before or after O (for DeleteVersionsTo also a shorter deletion, since it deletes version by version), every version of that state is re-read completely (hash, contents through walk and fast paths, iteration, raw f-entries vs label), then O is repeated and must reach the crash-free result, verified through a fresh handle. TestC05Import: import commit (plain/compressed, with a root inherited from an earlier version, with fast-index build) cut at every write, incl. retry of the import. non-trivial = |J| >= 2 (the operation was split over several physical writes); exhaustive within each history, sampled across histories",
@@ -67,18 +67,18 @@ CHECKS = {
         "assumptions": _ASSUME + ["Go race detector", "schedules are sampled, and controlled only at storage-call / tagged-yield granularity; no claim of schedule coverage"],
         "quick": [{"test": "TestC06Plan", "checks": 90, "shards": 6}, {"test": "TestC06Stress", "checks": 150, "shards": 3, "race": True, "env": {"GORACE": "halt_on_error=0"}},
                   {"test": "TestC06Stress", "checks": 100, "shards": 1, "race": True, "env": {"GORACE": "halt_on_error=0", "VERIF_GOMAXPROCS": "2"}}],
-        "thorough": [{"test": "TestC06Plan", "checks": 5000, "shards": 10}, {"test": "TestC06Stress", "checks": 20000, "shards": 4, "race": True, "env": {"GORACE": "halt_on_error=0"}},
-                     {"test": "TestC06Stress", "checks": 10000, "shards": 2, "race": True, "env": {"GORACE": "halt_on_error=0", "VERIF_GOMAXPROCS": "2"}}],
+        "thorough": [{"test": "TestC06Plan", "checks": 3000, "shards": 10}, {"test": "TestC06Stress", "checks": 12000, "shards": 4, "race": True, "env": {"GORACE": "halt_on_error=0"}},
+                     {"test": "TestC06Stress", "checks": 6000, "shards": 2, "race": True, "env": {"GORACE": "halt_on_error=0", "VERIF_GOMAXPROCS": "2"}}],
     },
     "C08": _world("TestC08", _R["C08"], 500, 30000),
-    "C09": _world("TestC09", _R["C09"], 300, 20000),
+    "C09": _world("TestC09", _R["C09"], 300, 8000),
     "C10": {
         "level": "exploration",
         "rule": _R["C10"] + " | (b) TestC10Hostile: valid export streams (plain and compressed) of generated trees are mutated (swap, drop, duplicate, height +-, version in {negative, MinInt64, 0, > import version, MaxInt64}, nil/empty key or value, value on any node, nil node, hostile key prefix, truncation, wrong import version) or replaced by random ExportNode sequences, fed to Importer / CompressImporter and ended by Commit or Close: no panic, no hang (60 s watchdog = inconclusive), error or commit; unless Commit succeeded a fresh tree on that store must Load() as (0,nil) with no version visible; non-trivial = mutated stream in which >=1 inner node was accepted (stack-rebuild branch). TestC10Big: >10000-node streams (5001-5400 leaves) committed (reference hash, all keys) / closed / failing after the first 10000-node batch was flushed.",
         "assumptions": _ASSUME + ["ics23/go v0.11.0 verifier (IavlSpec)"],
         "quick": [{"test": "TestC10", "checks": 300, "shards": 5}, {"test": "TestC10Hostile", "checks": 4000, "shards": 4},
                   {"test": "TestC10Big", "checks": 3, "shards": 2}],
-        "thorough": [{"test": "TestC10", "checks": 15000, "shards": 8}, {"test": "TestC10Hostile", "checks": 250000, "shards": 6},
+        "thorough": [{"test": "TestC10", "checks": 6000, "shards": 8}, {"test": "TestC10Hostile", "checks": 250000, "shards": 6},
                      {"test": "TestC10Big", "checks": 60, "shards": 2},
                      {"kind": "fuzz", "test": "FuzzImporter", "fuzztime": "180s"}],
     },
@@ -87,7 +87,7 @@ CHECKS = {
         "rule": "insertion-order profiles (ascending, descending, alternating ends, random with removals, remove-a-contiguous-run to empty subtrees) with interleaved commits, trees up to 300 keys (quick) / 3000 keys (thorough); for the working tree and every version: Height()/Size() equal the reference tree's and satisfy h <= 1.4405*log2(n+2); GetByIndex(i) = i-th sorted pair and GetWithIndex(k) = rank for ALL keys and ranks, insertion rank for absent neighbours, nil for out-of-range ranks (n, n+5, -1); Has and Get of every key agree with the rank lookups, and keys of the last committed version removed in the working tree are absent for GetWithIndex, Has and Get alike; fast index on in a third of the cases; with cache size 0 on a counting storage wrapper, on fresh tree objects: <= 2h+2 storage reads for Get (walk) / Has / GetWithIndex / GetByIndex / Get(absent), <= 10h+10 for GetProof. non-trivial = size >= 8 and >= 1 double rotation in the reference; distinct = sha256 of the op list",
         "assumptions": _ASSUME + ["storage reads are counted at the KVStore interface (Get/Has calls) with the node cache disabled"],
         "quick": [{"test": "TestC11", "checks": 120, "shards": 8}],
-        "thorough": [{"test": "TestC11", "checks": 2500, "shards": 16, "env": {"VERIF_TIER": "thorough"}}],
+        "thorough": [{"test": "TestC11", "checks": 1200, "shards": 16, "env": {"VERIF_TIER": "thorough"}}],
     },
     "C16": {
         "level": "exploration",
@@ -112,7 +112,7 @@ CHECKS = {
         "quick": [{"test": "TestC18", "checks": 1500, "shards": 6}, {"test": "TestC18", "checks": 150, "shards": 2, "env": {"VERIF_LEVEL": "1"}}],
         "thorough": [{"test": "TestC18", "checks": 60000, "shards": 12}, {"test": "TestC18", "checks": 5000, "shards": 4, "env": {"VERIF_LEVEL": "1"}}],
     },
-    "C12": _world("TestC12", _R["C12"], 700, 40000),
+    "C12": _world("TestC12", _R["C12"], 700, 25000),
     "C13": {
         "level": "exploration",
         "rule": _R["C13"] + " | (b) TestC13b: a reference history of 1-6 versions is written by the independent encoder (two own nonce numberings, reference roots in the 13-byte and the old 9-byte form, empty roots, optionally fast index + label); the library must Load it, report the same versions/contents/hashes/proofs, pass the raw audit and continue 3-20 generated steps (commits, prunes, rollbacks, reopens) with reference hashes; non-trivial = >=1 inner node and >=1 reference or empty root encoded. | (c) TestC13c: valid encodings for MakeNode, MakeLegacyNode, fastnode.DeserializeNode, DecodeBytes/Uvarint/Varint (verif re-export) and the reference-root reader are mutated (byte flips, truncation, splices of hostile varints: max, overflow, 2^62 length) or replaced by random bytes: error-or-value, no panic, < 64 MB allocated per call, successful decodes agree field by field with the independent decoder / encoding/binary; non-trivial = input differs from the valid encoding and is longer than 2 bytes. thorough adds native go fuzz campaigns per decoder.",
@@ -121,13 +121,13 @@ CHECKS = {
         "quick": [{"test": "TestC13a", "checks": 500, "shards": 4}, {"test": "TestC13b", "checks": 400, "shards": 4},
                   {"test": "TestC13c", "checks": 6000, "shards": 4, "env": _C13C_ENV}],
         "thorough": [{"test": "TestC13a", "checks": 30000, "shards": 6}, {"test": "TestC13b", "checks": 20000, "shards": 6},
-                     {"test": "TestC13c", "checks": 400000, "shards": 4, "env": _C13C_ENV},
+                     {"test": "TestC13c", "checks": 250000, "shards": 4, "env": _C13C_ENV},
                      {"kind": "fuzz", "test": "FuzzMakeNode", "fuzztime": "120s"}, {"kind": "fuzz", "test": "FuzzMakeLegacyNode", "fuzztime": "90s"},
                      {"kind": "fuzz", "test": "FuzzDeserializeNode", "fuzztime": "60s"}, {"kind": "fuzz", "test": "FuzzDecodeBytes", "fuzztime": "45s"},
                      {"kind": "fuzz", "test": "FuzzDecodeVarint", "fuzztime": "30s"}, {"kind": "fuzz", "test": "FuzzDecodeUvarint", "fuzztime": "30s"},
                      {"kind": "fuzz", "test": "FuzzRootReader", "fuzztime": "120s"}],
     },
-    "C14": _world("TestC14", _R["C14"], 500, 30000),
+    "C14": _world("TestC14", _R["C14"], 500, 16000),
     "C15": _world("TestC15", _R["C15"], 600, 30000),
     "C19": {
         "level": "exploration",
